@@ -32,7 +32,7 @@ ASSUMPTIONS = [
     'optimizers needing absent libraries (polychord, dypolychord) and plugin components (ace, BHMie) cannot be discovered here and are not judged',
     'CLI differential: taurex.taurex.main() run in-process with -i -o -S on files the harness wrote (pickle cross-sections, pickle CIA); spectrum compared with the same components built through the library, rtol 1e-9',
 ]
-REQUIRED = {'part:sections': 0.2, 'part:cli': 0.08, 'part:selectors': 0.01, 'negative': 0.08}
+REQUIRED = {'part:sections': 0.2, 'part:cli': 0.08, 'part:selectors': 0.01, 'part:retrieval': 0.1, 'negative': 0.08}
 
 # family -> (ClassFactory attribute, rst file, {selector: class name})
 DOCUMENTED = {
@@ -74,7 +74,7 @@ def _opt(strategy):
 
 @st.composite
 def _case(draw):
-    part = draw(st.sampled_from(['selectors', 'sections', 'cli', 'sections', 'cli', 'sections']))
+    part = draw(st.sampled_from(['selectors', 'sections', 'cli', 'retrieval', 'sections', 'cli', 'retrieval', 'sections']))
     c = {'part': part}
     if part == 'selectors':
         c['case_variant'] = draw(st.integers(0, 3))
@@ -115,6 +115,50 @@ def _case(draw):
     c['tables'] = draw(st.lists(S.table(6, mag='mixed'), min_size=3, max_size=3))
     c['wn0'] = draw(f(300.0, 4000.0))
     c['dwn'] = draw(f(5.0, 300.0))
+    if part == 'retrieval':
+        c['negative'] = None
+        c['composite'] = None
+        c['temp'] = draw(st.sampled_from(['isothermal', 'npoint']))
+        c['tkeys']['temperature_points'] = None         # the model is built here: keep the profile valid for any pressure range
+        c['gases'] = [g for g in c['gases'] if g['type'] != 'twopoint'] or [{'type': 'constant', 'mix_ratio': -4.0}]
+        # --- [Observation]
+        c['obs'] = draw(st.sampled_from(['file4', 'file3', None, 'file4']))
+        c['obs_rows'] = draw(st.integers(3, 8))
+        c['obs_perm'] = draw(st.permutations(list(range(8))))
+        c['obs_vals'] = draw(st.lists(f(1e-3, 2e-2), min_size=8, max_size=8))
+        c['obs_errs'] = draw(st.lists(f(1e-5, 1e-3), min_size=8, max_size=8))
+        c['obs_wf'] = draw(st.lists(f(0.3, 1.0), min_size=8, max_size=8))
+        # --- [Binning]
+        c['binning'] = draw(st.sampled_from(['observed', 'manual', 'native', None, 'manual', 'observed']))
+        c['bin_kind'] = draw(st.sampled_from(['wavelength_grid', 'log_wavenumber_grid', 'wavenumber_grid', 'log_wavelength_grid', 'wavelength_res']))
+        c['bin_n'] = draw(st.integers(2, 9))
+        c['bin_res'] = draw(f(3.0, 40.0))
+        c['bin_span'] = draw(st.tuples(f(0.0, 0.4), f(0.6, 1.0)))
+        c['accurate'] = draw(st.sampled_from([True, None, False]))
+        # --- [Instrument]
+        c['instrument'] = draw(st.sampled_from(['snr', None, 'SNR', 'signal-noise-ratio']))
+        c['snr'] = draw(_opt(f(1.0, 500.0)))
+        c['num_obs'] = draw(_opt(st.integers(1, 30)))
+        # --- [Optimizer]
+        c['optimizer'] = draw(st.sampled_from(['multinest', 'nestle']))
+        c['okeys'] = {'num_live_points': draw(_opt(st.integers(5, 3000))), 'tol': draw(_opt(f(0.01, 5.0))),
+                      'method': draw(_opt(st.sampled_from(['single', 'classic', 'multi']))), 'sigma_fraction': draw(_opt(f(0.01, 0.9))),
+                      'max_iterations': draw(_opt(st.integers(0, 5000))), 'evidence_tolerance': draw(_opt(f(0.01, 5.0))),
+                      'search_multi_modes': draw(_opt(st.booleans())), 'importance_sampling': draw(_opt(st.booleans())),
+                      'maximum_modes': draw(_opt(st.integers(1, 200))), 'resume': draw(_opt(st.booleans())),
+                      'multinest_prefix': draw(_opt(st.sampled_from(['run-', 'x_', '2-'])))}
+        c['oneg'] = draw(st.sampled_from([None, None, None, 'unknown-key', 'unknown-selector']))
+        # --- [Fitting] / [Derive]
+        # names are indices into the sorted fitting parameters of the model the file builds (resolved by the
+        # check); -1 is a name no model has
+        c['fitting'] = draw(st.lists(st.fixed_dictionaries({
+            'name': st.sampled_from(list(range(12)) + [-1]), 'fit': st.sampled_from([True, True, None, False]),
+            'bounds': _opt(st.tuples(f(1e-3, 1.0), f(1.5, 5e3))), 'mode': _opt(st.sampled_from(['log', 'linear', 'LOG', 'Linear'])),
+            'factor': _opt(st.tuples(f(0.1, 0.9), f(1.1, 4.0))),
+            'prior': _opt(st.sampled_from(['Uniform(bounds=(0.5, 2.5))', 'LogUniform(bounds=(-3, 1))', 'Gaussian(mean=1.5, std=0.25)',
+                                           'LogGaussian(mean=-1.0, std=0.5)', 'LogUniform(lin_bounds=(0.01, 100))', 'uniform(bounds=[1,2])']))}),
+            max_size=5, unique_by=lambda d: d['name']))
+        c['derive_mu'] = draw(st.sampled_from([None, True, False]))
     return c
 
 
@@ -312,7 +356,10 @@ def build_par(c, tmp, W):
             continue
         if k == 'temperature_points':
             lines.append('temperature_points = %s' % ','.join(num(x) for x in tk[k]))
-            pp = [3e4, 3e2]
+            # interior nodes strictly inside the pressure range this file declares (defaults 1e6 .. 1e-4 Pa)
+            pmax_ = c['pkeys']['atm_max_pressure'] if c['pkeys']['atm_max_pressure'] is not None else 1e6
+            pmin_ = c['pkeys']['atm_min_pressure'] if c['pkeys']['atm_min_pressure'] is not None else 1e-4
+            pp = [float('%.6g' % (pmax_ * (pmin_ / pmax_) ** 0.3)), float('%.6g' % (pmax_ * (pmin_ / pmax_) ** 0.6))]
             lines.append('pressure_points = %s' % ','.join(num(x) for x in pp))
             e[k] = [float(x) for x in tk[k]]
             e['pressure_points'] = pp
@@ -627,6 +674,343 @@ def check_cli(out, c, tmp, par, lib_model):
         out.fail('cli-spectrum@-o', 'stored spectrum / model type differ from the library result')
 
 
+# ---------------------------------------------------------------------------------------------------
+# [Observation] / [Binning] / [Instrument] / [Optimizer] / [Fitting] / [Derive] sections
+def _manual_grid(kind, lo, hi, n, res):
+    """reference wavenumber grid for a manual [Binning] section, from the documentation: N equally (log-)
+    spaced points from start to end in wavelength (um) or wavenumber (cm-1); returned ascending in wavenumber"""
+    if kind in ('wavelength_grid', 'wavenumber_grid'):
+        pts = [lo + (hi - lo) * i / (n - 1) for i in range(n)]
+    else:
+        pts = [lo * (hi / lo) ** (i / (n - 1)) for i in range(n)]
+    if 'wavelength' in kind:
+        pts = sorted(10000.0 / x for x in pts)
+    return np.array(pts)
+
+
+def optimizer_classes():
+    from taurex.parameter.classfactory import ClassFactory
+    from taurex.instruments.snr import SNRInstrument
+    ks = set(ClassFactory().optimizerKlasses) | {SNRInstrument}
+    allk = set()
+    for k in ks:
+        for b in k.__mro__:
+            if b.__module__.startswith('taurex.') and '__init__' in b.__dict__:
+                allk.add(b)
+    return sorted(allk, key=lambda k: k.__name__)
+
+
+def check_retrieval(out, c, tmp):
+    from taurex.parameter import ParameterParser
+    from taurex.binning import FluxBinner, SimpleBinner
+    from taurex.optimizer.nestle import NestleOptimizer
+    from vlib import ref
+    synth.reset_world()
+    W = write_data(c, tmp)
+    lines, _ = build_par(c, tmp, W)
+    if c['family'] == 'transmission' and 'SimpleClouds' not in c['contribs'] and 'ThickClouds' not in c['contribs']:
+        lines += ['    [[SimpleClouds]]']
+    forms = c['forms']
+    fi = [0]
+
+    def num(x):
+        fi[0] += 1
+        return fmt_num(x, forms[fi[0] % len(forms)])
+
+    def boolean(b):
+        return (BOOLTRUE if b else BOOLFALSE)[c['boolform']]
+    wn = W.wn
+    lo_wn, hi_wn = float(wn[0]), float(wn[-1])
+    # ---- observation file (rows in a drawn order)
+    obs_rows = None
+    if c['obs']:
+        n = c['obs_rows']
+        cen = np.linspace(lo_wn + 0.1 * (hi_wn - lo_wn), hi_wn - 0.1 * (hi_wn - lo_wn), n)
+        wl = 10000.0 / cen
+        width = np.array(c['obs_wf'][:n]) * (10000.0 / cen[0] - 10000.0 / cen[1]) * 0.5
+        rows = np.column_stack([wl, c['obs_vals'][:n], c['obs_errs'][:n], width])
+        if c['obs'] == 'file3':
+            rows = rows[:, :3]
+        perm = [i for i in c['obs_perm'] if i < n]
+        obs_rows = rows
+        obsfile = os.path.join(tmp, 'obs.dat')
+        np.savetxt(obsfile, rows[perm], fmt='%.17e')
+        lines += ['', '[Observation]', 'observed_spectrum = %s' % obsfile]
+    # ---- binning
+    binning = c['binning']
+    if binning == 'observed' and not c['obs']:
+        binning = 'native'
+    want_grid = None
+    if binning:
+        lines += ['', '[Binning]', 'bin_type = %s' % binning]
+        if binning == 'manual':
+            a, b = c['bin_span']
+            kind = c['bin_kind']
+            lo = lo_wn + a * (hi_wn - lo_wn)
+            hi = lo_wn + b * (hi_wn - lo_wn)
+            if 'wavelength' in kind:
+                lo, hi = 10000.0 / hi, 10000.0 / lo
+            if kind == 'wavelength_res':
+                lines.append('%s = %s, %s, %s' % (kind, num(lo), num(hi), num(c['bin_res'])))
+            else:
+                lines.append('%s = %s, %s, %s' % (kind, num(lo), num(hi), num(c['bin_n'])))
+                want_grid = _manual_grid(kind, lo, hi, c['bin_n'], None)
+            if c['accurate'] is not None:
+                lines.append('accurate = %s' % boolean(c['accurate']))
+    # ---- instrument
+    if c['instrument']:
+        lines += ['', '[Instrument]', 'instrument = %s' % c['instrument']]
+        if c['snr'] is not None:
+            lines.append('SNR = %s' % num(c['snr']))
+        if c['num_obs'] is not None:
+            lines.append('num_observations = %d' % c['num_obs'])
+    # ---- optimizer
+    osel = c['optimizer']
+    okeys_all = {'nestle': ['num_live_points', 'tol', 'method', 'sigma_fraction'],
+                 'multinest': ['num_live_points', 'max_iterations', 'evidence_tolerance', 'search_multi_modes', 'importance_sampling',
+                               'maximum_modes', 'resume', 'multinest_prefix', 'sigma_fraction']}[osel]
+    oexp = {}
+    lines += ['', '[Optimizer]', 'optimizer = %s' % (osel if c['oneg'] != 'unknown-selector' else 'no-such-sampler')]
+    for k in okeys_all:
+        v = c['okeys'][k]
+        if v is None:
+            continue
+        if isinstance(v, bool):
+            lines.append('%s = %s' % (k, boolean(v)))
+            oexp[k] = v
+        elif isinstance(v, str):
+            lines.append('%s = %s' % (k, v))
+            oexp[k] = v
+        else:
+            lines.append('%s = %s' % (k, num(v)))
+            oexp[k] = float(v)
+    if osel == 'multinest':
+        lines.append('multi_nest_path = %s' % os.path.join(tmp, 'chains'))
+        oexp['multi_nest_path'] = os.path.join(tmp, 'chains')
+    if c['oneg'] == 'unknown-key':
+        lines.append('not_a_sampler_option = 3')
+    # ---- fitting / derive
+    # resolve the drawn indices against the parameters this input file's model will have (a throw-away build)
+    pp0 = ParameterParser()
+    tmp_par = os.path.join(tmp, 'names.par')
+    with open(tmp_par, 'w') as f:
+        f.write('\n'.join(lines) + '\n')
+    cut(out, 'parser.read', pp0.read, tmp_par)
+    cut(out, 'setup_globals', pp0.setup_globals)
+    m0 = cut(out, 'generate_model', pp0.generate_appropriate_model)
+    with np.errstate(all='ignore'):
+        cut(out, 'library-build', m0.build)
+    def _usable(nm):
+        v0 = m0.fittingParameters[nm][2]()
+        return isinstance(v0, (float, int, np.floating)) and math.isfinite(v0) and v0 > 0
+    # parameters that currently hold a positive number (an unset cloud bound is None / -1: fitting it in log space
+    # or scaling its value by a factor means nothing)
+    avail = sorted(nm for nm in m0.fittingParameters if _usable(nm))
+    fitting, seen = [], set()
+    for fp in c['fitting']:
+        nm = 'no_such_parameter' if fp['name'] < 0 else avail[fp['name'] % len(avail)]
+        if nm in seen:
+            continue
+        seen.add(nm)
+        fitting.append(dict(fp, name=nm))
+    synth.reset_world()
+    flines = []
+    for fp in fitting:
+        if fp['fit'] is not None:
+            flines.append('%s:fit = %s' % (fp['name'], boolean(fp['fit'])))
+        if fp['bounds'] is not None:
+            flines.append('%s:bounds = %s, %s' % (fp['name'], num(fp['bounds'][0]), num(fp['bounds'][1])))
+        if fp['mode'] is not None:
+            flines.append('%s:mode = %s' % (fp['name'], fp['mode']))
+        if fp['factor'] is not None:
+            flines.append('%s:factor = %s, %s' % (fp['name'], num(fp['factor'][0]), num(fp['factor'][1])))
+        if fp['prior'] is not None:
+            flines.append('%s:prior = "%s"' % (fp['name'], fp['prior']))
+    if flines:
+        lines += ['', '[Fitting]'] + flines
+    if c['derive_mu'] is not None:
+        lines += ['', '[Derive]', 'mu:compute = %s' % boolean(c['derive_mu'])]
+    par = os.path.join(tmp, 'input.par')
+    with open(par, 'w') as f:
+        f.write('\n'.join(lines) + '\n')
+    out.cls('obs:%s' % c['obs'])
+    out.cls('binning:%s' % binning)
+    out.cls('optimizer:%s' % osel)
+    pp = ParameterParser()
+    cut(out, 'parser.read', pp.read, par)
+    cut(out, 'setup_globals', pp.setup_globals)
+    # ---- [Observation]: the file's rows, whatever their order
+    obs = cut(out, 'generate_observation', pp.generate_observation)
+    out.applies('observation-section')
+    if c['obs']:
+        order = np.argsort(10000.0 / obs_rows[:, 0])
+        if type(obs).__name__ != 'ObservedSpectrum' or not np.array_equal(obs.spectrum, obs_rows[order, 1]) \
+                or not np.array_equal(obs.errorBar, obs_rows[order, 2]) or not close(obs.wavenumberGrid, 10000.0 / obs_rows[order, 0], rtol=1e-14):
+            out.fail('observation-section@observed_spectrum', 'object built from [Observation] does not hold the rows of the file')
+    elif obs is not None:
+        out.fail('observation-section@absent', 'no [Observation] section but %r was built' % (obs,))
+    # ---- [Binning]
+    got_b = cut(out, 'generate_binning', pp.generate_binning)
+    out.applies('binning-section')
+    if binning in (None, 'native', 'observed'):
+        if got_b != binning:
+            out.fail('binning-section@%s' % binning, 'generate_binning returned %r' % (got_b,))
+    else:
+        ok = isinstance(got_b, tuple) and len(got_b) == 2
+        if ok:
+            binner, grid = got_b
+            want_cls = FluxBinner if c['accurate'] else SimpleBinner
+            if type(binner) is not want_cls:
+                out.fail('binning-section@accurate=%s' % c['accurate'], 'binner class %s, documented %s' % (type(binner).__name__, want_cls.__name__))
+            grid = np.asarray(grid, dtype=float)
+            if want_grid is not None:
+                if grid.shape != want_grid.shape or not close(grid, want_grid, rtol=1e-12):
+                    out.fail('binning-section@grid:%s' % c['bin_kind'], 'grid %s, documented %s' % (grid[:4], want_grid[:4]))
+            else:
+                wl = np.sort(10000.0 / grid)
+                lo_, hi_ = 10000.0 / (lo_wn + c['bin_span'][1] * (hi_wn - lo_wn)), 10000.0 / (lo_wn + c['bin_span'][0] * (hi_wn - lo_wn))
+                R = c['bin_res']
+                bad = len(wl) < 1 or np.any(np.diff(grid) <= 0) or wl[0] < lo_ * (1 - 1e-12) or wl[-1] > hi_ * (1 + 2.0 / R)
+                if not bad and len(wl) > 2:
+                    ratio = wl[1:] / wl[:-1]
+                    bad = not close(ratio, np.full(len(ratio), (R + 0.5) / (R - 0.5)), rtol=1e-9)
+                if bad:
+                    out.fail('binning-section@grid:wavelength_res', 'resolution grid not an ascending constant-R grid inside the range: %s' % wl[:5])
+            if not np.array_equal(np.asarray(binner._wngrid, dtype=float), grid):
+                out.fail('binning-section@binner-grid', 'binner built on another grid than the one returned')
+        else:
+            out.fail('binning-section@manual', 'generate_binning returned %r' % (got_b,))
+    # ---- [Optimizer] and [Instrument]: selector -> class, keys -> constructor, defaults otherwise
+    with Recorder(optimizer_classes()) as rec:
+        try:
+            opt = pp.generate_optimizer()
+            ofail = None
+        except Exception as e:                          # noqa
+            opt, ofail = None, e
+        try:
+            inst = pp.generate_instrument(binner=got_b[0] if isinstance(got_b, tuple) else None)
+            ifail = None
+        except Exception as e:                          # noqa
+            inst, ifail = None, e
+    if c['oneg']:
+        out.cls('negative')
+        out.applies('unknown-is-error')
+        if ofail is None:
+            out.fail('unknown-is-error@%s,Optimizer' % c['oneg'], 'the [Optimizer] section was accepted')
+    else:
+        out.applies('keys-reach-constructor')
+        want_cls = {'nestle': 'NestleOptimizer', 'multinest': 'MultiNestOptimizer'}[osel]
+        if ofail is not None:
+            out.fail('builds@optimizer:%s@raises:%s' % (osel, type(ofail).__name__), repr(ofail))
+        elif type(opt).__name__ != want_cls:
+            out.fail('keys-reach-constructor@optimizer-class', '%s built %s' % (osel, type(opt).__name__))
+        else:
+            calls = [x for x in rec.calls if x[0] == want_cls]
+            eff = calls[-1][3] if calls else {}
+            sig = inspect.signature(type(opt).__init__)
+            for k, v in oexp.items():
+                if k not in eff or not values_equal(eff[k], v):
+                    out.fail('keys-reach-constructor@%s.%s' % (want_cls, k), '%s=%r written, constructor received %r' % (k, v, eff.get(k)))
+            for k, v in eff.items():
+                pdef = sig.parameters.get(k)
+                if k not in oexp and pdef is not None and pdef.default is not inspect.Parameter.empty and not _same_default(v, pdef.default):
+                    out.fail('keys-reach-constructor@%s.%s,default' % (want_cls, k), 'omitted, constructor received %r not %r' % (v, pdef.default))
+    out.applies('instrument-section')
+    if ifail is not None:
+        out.fail('builds@instrument@raises:%s' % type(ifail).__name__, repr(ifail))
+    elif c['instrument'] is None:
+        if inst is not None:
+            out.fail('instrument-section@absent', 'no [Instrument] section but %r was built' % (inst,))
+    else:
+        calls = [x for x in rec.calls if x[0] == 'SNRInstrument']
+        if not isinstance(inst, tuple) or type(inst[0]).__name__ != 'SNRInstrument' or not calls:
+            out.fail('instrument-section@class', 'instrument=%s built %r' % (c['instrument'], inst))
+        else:
+            eff = calls[-1][3]
+            if not values_equal(eff.get('SNR'), c['snr'] if c['snr'] is not None else 10):
+                out.fail('instrument-section@SNR', 'SNR written %r, constructor received %r' % (c['snr'], eff.get('SNR')))
+            if not values_equal(inst[1], c['num_obs'] if c['num_obs'] is not None else 1):
+                out.fail('instrument-section@num_observations', 'num_observations written %r, returned %r' % (c['num_obs'], inst[1]))
+    # ---- [Fitting] / [Derive] applied to an optimizer == the same settings made through the API
+    model = cut(out, 'generate_model', pp.generate_appropriate_model, obs=obs)
+    with np.errstate(all='ignore'):
+        cut(out, 'library-build', model.build)
+    if obs is None:
+        from taurex.data.spectrum.array import ArraySpectrum
+        cen = np.linspace(lo_wn, hi_wn, 4)
+        obs = ArraySpectrum(np.column_stack([10000.0 / cen, [0.01] * 4, [1e-4] * 4]))
+    known_names = set(model.fittingParameters)
+    unknown = [fp['name'] for fp in fitting if fp['name'] not in known_names and
+               any(fp[k] is not None for k in ('fit', 'bounds', 'mode', 'factor', 'prior'))]
+    o1 = NestleOptimizer(observed=obs, model=model)
+    out.applies('fitting-section')
+    try:
+        pp.setup_optimizer(o1)
+        sfail = None
+    except Exception as e:                              # noqa
+        sfail = e
+    if unknown:
+        out.cls('fitting:unknown-name')
+        out.applies('unknown-is-error')
+        if sfail is None:
+            out.fail('unknown-is-error@unknown-name,Fitting', 'fitting an unknown parameter %s was accepted' % unknown)
+    elif sfail is not None:
+        out.fail('fitting-section@raises:%s' % type(sfail).__name__, repr(sfail))
+    else:
+        from taurex.parameter.factory import create_prior
+        import copy
+        m2 = copy.deepcopy(model)
+        o2 = NestleOptimizer(observed=obs, model=m2)
+        for fp in fitting:
+            nm = fp['name']
+            if nm not in known_names:
+                continue
+            # the documented order of application: fit, factor, bounds, mode, prior
+            if fp['fit'] is not None or True:
+                (o2.enable_fit if fp['fit'] else o2.disable_fit)(nm)
+            if fp['factor'] is not None:
+                o2.set_factor_boundary(nm, list(fp['factor']))
+            if fp['bounds'] is not None:
+                o2.set_boundary(nm, list(fp['bounds']))
+            if fp['mode'] is not None:
+                o2.set_mode(nm, fp['mode'].lower())
+            if fp['prior'] is not None:
+                o2.set_prior(nm, create_prior(fp['prior']))
+        if c['derive_mu'] is not None:
+            (o2.enable_derived if c['derive_mu'] else o2.disable_derived)('mu')
+        cut(out, 'compile_params@file', o1.compile_params)
+        o2.compile_params()
+        a = (list(o1.fit_names), [type(p).__name__ for p in o1.fitting_priors], [p.params() for p in o1.fitting_priors], list(o1.derived_names))
+        b = (list(o2.fit_names), [type(p).__name__ for p in o2.fitting_priors], [p.params() for p in o2.fitting_priors], list(o2.derived_names))
+        if a != b or not close(np.array(o1.fit_boundaries, dtype=float), np.array(o2.fit_boundaries, dtype=float), rtol=1e-12) \
+                or not close(np.array(o1.fit_values, dtype=float), np.array(o2.fit_values, dtype=float), rtol=1e-12):
+            out.fail('fitting-section@differs-from-api', 'file: %s %s; API: %s %s' % (a[:2], list(o1.fit_boundaries), b[:2], list(o2.fit_boundaries)))
+        # what the file says, directly: fit flags and bounds
+        for fp in fitting:
+            nm = fp['name']
+            if nm not in known_names:
+                continue
+            fitted = [n_ for n_ in o1.fit_names if n_ in (nm, 'log_' + nm)]
+            if fp['fit'] is True and not fitted:
+                out.fail('fitting-section@fit-flag', '%s:fit = true but it is not fitted (%s)' % (nm, list(o1.fit_names)))
+            if fp['fit'] is False and fitted:
+                out.fail('fitting-section@fit-flag', '%s:fit = false but it is fitted' % nm)
+            if fitted and fp['prior'] is None and fp['bounds'] is not None and fp['factor'] is None:
+                # bounds written in the file are the bounds of the default prior (in the space of the mode)
+                i = list(o1.fit_names).index(fitted[0])
+                lo_b, hi_b = sorted(fp['bounds'])
+                if fitted[0].startswith('log_'):
+                    lo_b, hi_b = math.log10(lo_b), math.log10(hi_b)
+                if not close(sorted(o1.fit_boundaries[i]), [lo_b, hi_b], rtol=1e-12):
+                    out.fail('fitting-section@bounds', '%s:bounds = %s, reported %s' % (nm, fp['bounds'], o1.fit_boundaries[i]))
+            if fitted and fp['prior'] is None and fp['mode'] is not None:
+                if fitted[0].startswith('log_') != (fp['mode'].lower() == 'log'):
+                    out.fail('fitting-section@mode', '%s:mode = %s, fitted as %s' % (nm, fp['mode'], fitted[0]))
+        if len(o1.fit_names) >= 2:
+            out.cls('fitting:>=2-fitted')
+    return bool(len([l for l in lines if '=' in l]) >= 12)
+
+
 def check(case):
     out = Outcome()
     part = case['part']
@@ -635,6 +1019,8 @@ def check(case):
     try:
         if part == 'selectors':
             out.nontrivial = bool(check_selectors(out))
+        elif part == 'retrieval':
+            out.nontrivial = bool(check_retrieval(out, case, tmp))
         else:
             out.nontrivial = bool(check_sections(out, case, tmp, run_cli=(part == 'cli')))
     except CutError:
